@@ -23,6 +23,8 @@ type decTr struct {
 	inGo bool
 	// opaqueGo: `go func() {...}()` is one effect whose text is the goroutine's source
 	opaqueGo bool
+	// keepLog: logging calls are effects of this function (what is logged is the subject)
+	keepLog bool
 	// nesting depth of `for cond {}` loops being translated
 	loopDepth int
 }
@@ -356,7 +358,7 @@ func (t *decTr) stmt(s ast.Stmt) string {
 		}
 		if c, ok := x.X.(*ast.CallExpr); ok {
 			f := t.render(c.Fun)
-			if strings.HasPrefix(f, "a.l.") || strings.HasPrefix(f, "c.l.") || strings.HasPrefix(f, "d.Logger.") || f == "verifYield" {
+			if (strings.HasPrefix(f, "a.l.") || strings.HasPrefix(f, "c.l.") || strings.HasPrefix(f, "d.Logger.")) && !t.keepLog || f == "verifYield" {
 				return "" // logging / yield hooks: no effect on the decision
 			}
 			return "DCall " + q(t.render(c))
@@ -401,6 +403,10 @@ func decisionFunc(rel, fn string, drop ...string) string {
 	for _, d := range drop {
 		if d == "@opaque-go" {
 			t.opaqueGo = true
+			continue
+		}
+		if d == "@keep-log" {
+			t.keepLog = true
 			continue
 		}
 		t.dropAssignFrom[d] = true
